@@ -186,7 +186,10 @@ impl Server {
             } else {
                 vec![]
             };
+            world::ev(EvKind::Note(format!("page-cookie {token} {}", hex(&ck))));
             ctrls.push(Ctl { oid: PAGED_OID.as_bytes().to_vec(), crit: None, val: Some(encode_paged_value(0, &ck)) });
+        } else {
+            world::ev(EvKind::Note(format!("page-cookie {token} -")));
         }
         let last = !more || !pm.supports_paging;
         self.schedule(
@@ -305,6 +308,10 @@ impl Server {
             }
         });
     }
+}
+
+pub fn hex(b: &[u8]) -> String {
+    b.iter().map(|x| format!("{:02x}", x)).collect()
 }
 
 pub fn encode_paged_value(size: i64, cookie: &[u8]) -> Vec<u8> {
